@@ -284,6 +284,7 @@ func TestC16(t *testing.T) {
 			if op == "SafeT" || op == "pkgT" {
 				c.Perm = genPerm(rt, len(shape), "perm")
 			}
+			c.Unsafe = op == "ToMat64" && rapid.Bool().Draw(rt, "tomatunsafe")
 			return c
 		})
 	}
